@@ -553,6 +553,29 @@ func rulesC19(e *Engine, r *Report) {
 	// ---------------------------------------------------------------- R19.10
 	r.Rule("R19.10", "each tag's method setting is applied to exactly its files: an omitted method means http for EVERY tag (the default is not applied to a prefix of the tag list only) before the methods are turned into the store's ignore patterns - shared with R17.9")
 	e.checkMethodDefault(r, "R19.10")
+	// ---------------------------------------------------------------- R19.11
+	r.Rule("R19.11", "what `omitted` means for the inheritance copy: CopyStruct overwrites a field only when IsZero says so, and IsZero answers for a func, map or slice with IsNil() - an explicitly EMPTY list ([]), which the parsers produce as a non-nil slice, is a value and is not inherited over")
+	if fn := needFn(e, r, "R19.11", "reflectutil.IsZero"); fn != nil {
+		k := "call(reflect.(Value).Kind)(p0)"
+		cls := labeler(C("("+k+" == 19)", "func"), C("("+k+" == 21)", "map"), C("("+k+" == 23)", "slice"))
+		n := 0
+		for _, rw := range e.returnWorlds(r, "R19.11", fn, cls) {
+			if !rw.W.HasAny("func", "map", "slice") {
+				continue
+			}
+			n++
+			v := e.Canon(rw.In.(*ssa.Return).Results[0])
+			r.Check(v == "call(reflect.(Value).IsNil)(p0)", "R19.11", "reflectutil.IsZero: nil-ness decides for func/map/slice "+rw.W.String(), e.InstrPos(rw.In),
+				"a func, map or slice counts as `omitted` by another test than IsNil (an explicit empty list would be inherited over): "+shorten(v), 1, v)
+		}
+		r.Min("R19.11", "returns of IsZero for func/map/slice kinds", n, 3)
+	}
+	if fn := needFn(e, r, "R19.11", "reflectutil.CopyStruct"); fn != nil {
+		cls := labeler(C("call(reflectutil.IsZero)(call(reflect.(Value).Field)(§))", "zero"))
+		n := e.Guarded(r, "R19.11", "reflectutil.CopyStruct: a field is overwritten only when it is zero", fn, e.instrMatch("call(reflect.(Value).Set)(§)"), cls,
+			func(l LabelSet) bool { return l.Has("zero") }, "IsZero(target field)")
+		r.Min("R19.11", "field assignments in CopyStruct", n, 1)
+	}
 }
 
 func tagOfField(f *types.Var) string { return strings.ToLower(f.Name()) }
